@@ -76,7 +76,7 @@ PLANS = {
                         # client packets only, one behaviour per distinct model state (VIEW)
                         dict(M(2, 1, 1, 0, 3, "replace", 18, ["Inv_C15"], traces="client"), view=True)],
                    drv=["--scenarios", 200, "--directed", 2]),
-        thorough=dict(mc=[M(2, 1, 1, 1, 2, "all", 18, ["Inv_C15"], cont=False), M(2, 0, 1, 1, 3, "block", 16, ["Inv_C15"])],
+        thorough=dict(mc=[M(2, 1, 1, 1, 2, "all", 18, ["Inv_C15"], cont=False), M(2, 0, 1, 1, 2, "block", 16, ["Inv_C15"])],   # (budget 3 does not finish in 40 minutes since aggregate delays are modelled)
                       gen=[M(2, 1, 1, 1, 1, "block", 16, ["Inv_C15"], cont=False), M(1, 0, 1, 1, 2, "all", 12, ["Inv_C15"]),
                            dict(M(2, 1, 1, 0, 3, "replace", 18, ["Inv_C15"], traces="client"), view=True),
                            dict(M(2, 0, 1, 0, 4, "replace", 20, ["Inv_C15"], traces="client"), view=True)],
